@@ -137,6 +137,14 @@ func encOptsFor(in *xInput, rng *mrand.Rand, spCert []byte, pub *rsa.PublicKey) 
 		o.MutatePlain = func(p []byte) []byte { p[len(p)-1] = 255; return p }
 	case "all_zero":
 		o.MutatePlain = func(p []byte) []byte { return make([]byte, 16) }
+	case "pad_then_zeros": // one block: a small pad count followed by zero octets (what remains after zero-trimming is shorter than the count)
+		o.MutatePlain = func(p []byte) []byte {
+			b := make([]byte, 16)
+			b[rng.Intn(3)] = byte(2 + rng.Intn(15))
+			return b
+		}
+	case "pad_block_plus": // pad count one larger than the block size / than the data
+		o.MutatePlain = func(p []byte) []byte { p[len(p)-1] = byte(len(p) + 1); return p }
 	case "key_short":
 		o.WrappedKey = rnd(15)
 	case "key_garbage":
@@ -202,7 +210,7 @@ func (Xmlenc) Run(c *orch.Case) *orch.Outcome {
 	case "shape":
 		assertionEl = b.AssertionEl(world.Content("FA"), true)
 		plain = idp.Serialize(assertionEl, lay, rng)
-		if in.Shape == "pad_zero" || in.Shape == "pad_big" {
+		if in.Shape == "pad_zero" || in.Shape == "pad_big" || in.Shape == "pad_block_plus" {
 			plain = []byte("<x/>") // short, so that a bogus pad length exceeds the data
 		}
 	default:
